@@ -58,6 +58,12 @@ def obligations(tier, seed=0):
             for ts in (0, 1):
                 for rnd in ('n', 'f', 'c') if not thorough else RNDS:
                     add('mod', sbc=sbc, tbc=tbc, off=off, prec=prec, rnd=rnd, ssign=ss, tsign=ts)
+    # exact zero dividend (its tuple has exponent 0 and bit count 0: every shortcut must still be right)
+    for tbc in (1, 3, 9):
+        for ts in (0, 1):
+            for rnd in ('n', 'f', 'c'):
+                add('mod', sbc=0, tbc=tbc, off=0, prec=4, rnd=rnd, ssign=0, tsign=ts, E=40)
+    add('mod', sbc=0, tbc=3, off=0, prec=4, rnd='n', ssign=0, tsign=1, entry='op', E=40)
     add('mod', sbc=5, tbc=4, off=2, prec=3, rnd='n', ssign=0, tsign=1, entry='op')
     add('mod', sbc=9, tbc=3, off=-14, prec=4, rnd='n', ssign=1, tsign=1, entry='op')
     return obs
